@@ -25,8 +25,8 @@ PROP = {'gen': ['base64'],
  'technique': 'Coq proof (induction over documents and pixel grids, finite sweeps for bytes / attribute sets, reuse of the C14 codec '
               'theorems) + regenerated tables + model/implementation correspondence with child-process crash detection',
  'design_ref': 'DESIGN.md 6.19',
- 'n_quick': 1500,
- 'n_thorough': 30000,
+ 'n_quick': 4000,
+ 'n_thorough': 60000,
  'shard': 125,
  'level': 'proof',
  'trusted_base': [KERNEL,
